@@ -10,6 +10,7 @@ META = {
                   "name multisets <= 2/3 per section x 3 case modes x 2 versions), labelled bounded.",
     "level_note": "Assumes T-enc (the encoder's model of Python: lists, attribute dispatch by declared type, no monkey patching), T-str axioms on strip/upper/'%d' "
                   "(suf injective, upper distributes over suf; validated natively), new item not already in the section. Parsing of the re-read file (regex) is bounded only.",
+    "validate": ['T-str'],
     "trusted": ["T-str (suf/upper/strip axioms)"],
     "assumptions": ["precondition NoClash: no useful mnemonic has the form <text>:<k> (negation = known finding C13-suffix-clash)",
                     "precondition: the inserted item is not already an element of the section"],
